@@ -52,7 +52,10 @@ func (f *CopySeq) Call(s *slip.Scope, args slip.List, depth int) (seq slip.Objec
 		copy(list, ta)
 		seq = list
 	case *slip.Vector:
-		vv := slip.NewVector(ta.Length(), ta.ElementType(), nil, ta.Elements(), ta.Adjustable())
+		// The copy has elements of its own.
+		elements := make(slip.List, len(ta.Elements()))
+		copy(elements, ta.Elements())
+		vv := slip.NewVector(ta.Length(), ta.ElementType(), nil, elements, ta.Adjustable())
 		vv.FillPtr = ta.FillPtr
 		seq = vv
 	case slip.Octets:
